@@ -74,6 +74,8 @@ type Instance struct {
 	cacheEpoch int
 	cacheSnap  []byte
 	loadStep   int // scheduler step at which the current incarnation started
+	tickMoves  int  // w.timeMoves right after the last tick command of this instance
+	stopping   bool // cancelled in the middle of a round, sequencer not yet returned
 	rootsBuf   []byte // buffer the harness passes to SetRootsFromPEM and reuses
 	staged     map[string][]byte // members of the staging bundle the current round built
 	timeGuardHit bool
@@ -110,6 +112,7 @@ func (w *World) startLoad(in *Instance) {
 	in.dead = false
 	in.crashPending = false
 	in.state = stLoading
+	in.stopping = false
 	in.loadStep = w.sim.Step
 	in.log = nil
 	in.seqErr, in.loadErr = nil, nil
